@@ -115,4 +115,5 @@ def main():
     return 0 if meta.get('confirmed') and meta.get('detected') else 1
 
 
-sys.exit(main())
+if __name__ == '__main__':
+    sys.exit(main())
